@@ -100,23 +100,65 @@ def unpack(ctx, R):
     R.ok("C19.UNPACK-ARITY", U + "|unpackings of split(): %d" % n, where(f), "no unguarded fixed-arity unpacking", nontrivial=n > 0)
 
 
+def _ast_facts(ctx, f, node):
+    """Atomic facts (text, polarity) known when `node` is evaluated: short-circuit operands, conditional
+    expressions and dominating tests of the CFG, decomposed through and/or/not and normalised (!= -> ==)."""
+    from .c11 import _local_guards
+    raw = list(_local_guards(node, f.node))
+    if not f.is_lambda:
+        cfg = ctx.cfg(f)
+        holder = None
+        for n in cfg.nodes:
+            if n.ast is not None and any(x is node for x in ast.walk(n.ast)):
+                holder = n
+                break
+        if holder is not None:
+            for t in cfg.nodes:
+                if t.kind != "test" or t is holder or not cfg.dominates(t, holder):
+                    continue
+                labs = {cfg.elabel.get((t, s_)) for s_ in cfg.succ[t] if s_ is holder or cfg.dominates(s_, holder)}
+                if len(labs) == 1:
+                    raw.append((t.ast, labs.pop()))
+    facts = set()
+
+    def add(t, pol):
+        if isinstance(t, ast.UnaryOp) and isinstance(t.op, ast.Not):
+            add(t.operand, not pol)
+        elif isinstance(t, ast.BoolOp) and isinstance(t.op, ast.And) and pol:
+            for v in t.values:
+                add(v, True)
+        elif isinstance(t, ast.BoolOp) and isinstance(t.op, ast.Or) and not pol:
+            for v in t.values:
+                add(v, False)
+        elif isinstance(t, ast.Compare) and len(t.ops) == 1 and isinstance(t.ops[0], (ast.NotEq, ast.IsNot)):
+            eq = ast.Compare(left=t.left, ops=[ast.Eq() if isinstance(t.ops[0], ast.NotEq) else ast.Is()], comparators=t.comparators)
+            facts.add((ntext(eq).replace(" ", "").replace('"', "'"), not pol))
+        else:
+            facts.add((ntext(t).replace(" ", "").replace('"', "'"), pol))
+
+    for t, pol in raw:
+        add(t, pol)
+    return facts
+
+
 @rule("C19.HEXTOK")
 def hextok(ctx, R):
     P = ctx.P
-    f = P.func(U)
+    fns = [P.func(U)] + [P.funcs[q] for q in sorted(ctx.cg.reachable([U])) if q != U and q in P.funcs and P.funcs[q].module.name == "tex"]
     n = 0
-    for nd in ast.walk(f.node):
-        if isinstance(nd, ast.Call) and isinstance(nd.func, ast.Name) and nd.func.id == "int" and len(nd.args) == 2 and const_value(nd.args[1]) == 16:
-            n += 1
-            a = nd.args[0]
-            gs = [ntext(g).replace(" ", "").replace('"', "'") for g in _guards_of(nd, f.node)]
-            if isinstance(a, ast.Subscript) and isinstance(a.slice, ast.Constant) and isinstance(a.value, ast.Name):
-                X, k = a.value.id, a.slice.value
-                lenok = any(g in ("len(%s)==2" % X,) or (g.startswith("len(%s)==" % X) and int(g.split("==")[1]) > k) or (g.startswith("len(%s)>=" % X) and int(g.split(">=")[1]) > k) for g in gs)
-                tagok = any(g in ("not%s[0].startswith('<')" % X, "%s[0][0]!='<'" % X, "not%s[0][0]=='<'" % X) for g in gs)
-                R.check(lenok and tagok, "C19.HEXTOK", U + "|int(%s[%s], 16)" % (X, k), where(f, nd), "token exists and the mapping has no <tag>", "`%s` parses a decomposition token as hex without guards that fix the token count and exclude <tag> mappings (have: %s): ValueError / IndexError for compatibility characters" % (ntext(nd), gs))
-            else:
-                R.bad("C19.HEXTOK", U + "|%s" % ntext(nd)[:40], where(f, nd), "`%s`: hex parsing of a value that is not a guarded token of the decomposition" % ntext(nd)[:60])
+    for f in fns:
+        for nd in walk_local(f.node):
+            if isinstance(nd, ast.Call) and isinstance(nd.func, ast.Name) and nd.func.id == "int" and len(nd.args) == 2 and const_value(nd.args[1]) == 16:
+                n += 1
+                a = nd.args[0]
+                facts = _ast_facts(ctx, f, nd)
+                if isinstance(a, ast.Subscript) and isinstance(a.slice, ast.Constant) and isinstance(a.value, ast.Name):
+                    X, k = a.value.id, a.slice.value
+                    lenok = ("len(%s)==2" % X, True) in facts or any(t.startswith("len(%s)==" % X) and pol and t.split("==")[1].isdigit() and int(t.split("==")[1]) > k for t, pol in facts)
+                    tagok = ("%s[0].startswith('<')" % X, False) in facts or ("%s[0][0]=='<'" % X, False) in facts
+                    R.check(lenok and tagok, "C19.HEXTOK", "%s|int(%s[%s], 16)" % (f.qual, X, k), where(f, nd), "token exists and the mapping has no <tag>", "`%s` parses a decomposition token as hex without guards that fix the token count and exclude <tag> mappings (known here: %s): ValueError / IndexError for compatibility characters" % (ntext(nd), sorted(facts)))
+                else:
+                    R.bad("C19.HEXTOK", "%s|%s" % (f.qual, ntext(nd)[:40]), where(f, nd), "`%s`: hex parsing of a value that is not a guarded token of the decomposition" % ntext(nd)[:60])
     R.check(n >= 1, "C19.HEXTOK.inventory", "hex parses examined: %d" % n, "", "", "", nontrivial=False)
 
 
@@ -217,57 +259,121 @@ def flow(ctx, R):
     R.check(n_leaves >= 3, "C19.FLOW.inventory", "paths through the loop body: %d" % n_leaves, where(f), "", "the loop body has only %d paths (expected combining / attached / base cases)" % n_leaves, nontrivial=False)
 
 
+def _path_facts(path):
+    facts = set()
+
+    def add(t, pol):
+        if isinstance(t, tuple) and t[0] == "not":
+            add(t[1], not pol)
+        elif isinstance(t, tuple) and t[0] == "and" and pol:
+            for x in t[1:]:
+                add(x, True)
+        elif isinstance(t, tuple) and t[0] == "or" and not pol:
+            for x in t[1:]:
+                add(x, False)
+        elif isinstance(t, tuple) and t[0] == "cmp" and t[1] in ("ne", "isnot", "notin"):
+            add(("cmp", {"ne": "eq", "isnot": "is", "notin": "in"}[t[1]], t[2], t[3]), not pol)
+        else:
+            from ..sym import ckey
+            facts.add((ckey(t), pol))
+
+    for c, taken in path:
+        if isinstance(c, Cond):
+            add(c.tree, taken)
+    return facts
+
+
+def _loop_leaves(ctx):
+    """Evaluate the loop body of uni2tex for an arbitrary character; yield (facts, out', cluster', names)."""
+    P = ctx.P
+    f = P.func(U)
+    loops = _loop(f)
+    if len(loops) != 1 or not isinstance(loops[0], ast.For):
+        raise Undecided("uni2tex is not a single for-loop over the characters")
+    lp = loops[0]
+    ev = new_eval(P)
+    st = ev.new_state(f, {f.params[0]: Opaque("TEXT", kind="str")})
+    ev.block(f.node.body[: f.node.body.index(lp)], st, [])
+    svars = [k for k, v in st.env.vars.items() if isinstance(v, Const) and v.v == ""]
+    rets = [n for n in f.node.body[f.node.body.index(lp) + 1:] if isinstance(n, ast.Return)]
+    for k in svars:
+        st.env.vars[k] = Opaque(k.upper(), kind="str")
+    rv = ev.expr(rets[0].value, st) if rets else None
+    order = [p[1] for p in _tparts(rv) if p[0] == "hole"] if rv is not None else []
+    for k, v in list(st.env.vars.items()):
+        if isinstance(v, DictV) and v.items and all(isinstance(x, int) for x in v.items):
+            st.env.vars[k] = Opaque("ACCENTS", kind="obj")
+    ch = Opaque("ch", kind="str")
+    if isinstance(lp.target, ast.Name):
+        st.env.vars[lp.target.id] = ch
+    else:
+        ev.bind(lp.target, Seq("tuple", [Opaque("i"), ch]), st)
+    ev.block(lp.body, st, [])
+    outn = order[0] if order else None
+    cln = order[1] if len(order) > 1 else None
+    outv = next((k for k in svars if k.upper() == outn), None)
+    clv = next((k for k in svars if k.upper() == cln), None)
+    o2 = st.env.lookup(outv) if outv else Const("")
+    c2 = st.env.lookup(clv) if clv else Const("")
+    res = []
+    for path, leaf in leaves(lift(Seq("tuple", [o2, c2]))):
+        res.append((_path_facts(path), leaf.items[0], leaf.items[1]))
+    return f, lp, res, outn, cln
+
+
+def _accent_parts(v):
+    """If v is the template \\<cmd>{<arg>} return (cmd hole key, arg parts) else None."""
+    if not isinstance(v, Template):
+        return None
+    ps = v.parts
+    if len(ps) >= 4 and ps[0] == ("lit", "\\") and ps[1][0] == "hole" and ps[-1] == ("lit", "}") and ps[2][0] == "lit" and ps[2][1] == "{":
+        return key(ps[1][1]), ps[3:-1]
+    return None
+
+
 @rule("C19.WRAP")
 def wrap(ctx, R):
     P = ctx.P
-    f = P.func(U)
-    n = 0
-    for nd in ast.walk(f.node):
-        if isinstance(nd, ast.BinOp) and isinstance(nd.op, ast.Mod) and isinstance(nd.left, ast.Constant) and isinstance(nd.left.value, str):
-            n += 1
-            R.check(nd.left.value == "\\%s{%s}" and isinstance(nd.right, ast.Tuple) and len(nd.right.elts) == 2, "C19.WRAP", U + "|template %r" % nd.left.value, where(f, nd), "accent template \\<cmd>{<arg>}", "template %r is not the TeX accent form \\<cmd>{<arg>}" % nd.left.value)
-            if not (isinstance(nd.right, ast.Tuple) and len(nd.right.elts) == 2):
-                continue
-            cmd, arg = nd.right.elts
-            gs = [ntext(g).replace(" ", "") for g in _guards_of(nd, f.node)]
-            ct = ntext(cmd).replace(" ", "")
-            at = ntext(arg).replace(" ", "")
-            if not (isinstance(cmd, ast.Subscript) and isinstance(cmd.value, ast.Name)):
-                R.bad("C19.WRAP", U + "|command %s" % ct, where(f, nd), "the accent command `%s` is not looked up in the accent table" % ct)
-                continue
-            tbl, idx = cmd.value.id, ntext(cmd.slice).replace(" ", "")
-            member = "%sin%s" % (idx, tbl) in gs
-            # resolve simple aliases: code = ord(char)
-            defs = {}
-            for a in ast.walk(f.node):
-                if isinstance(a, ast.Assign) and isinstance(a.targets[0], ast.Name):
-                    defs.setdefault(a.targets[0].id, []).append(ntext(a.value).replace(" ", ""))
-            loopvar = None
-            for l in _loop(f):
-                if isinstance(l, ast.For) and isinstance(l.target, ast.Name):
-                    loopvar = l.target.id
-            idx_src = defs.get(idx, [idx])
-            if idx_src == ["ord(%s)" % loopvar]:
-                # combining branch: applied to the pending cluster, which must be non-empty
-                clus = at
-                ok = member and clus in gs and isinstance(arg, ast.Name)
-                R.check(ok, "C19.WRAP", U + "|combining mark", where(f, nd), "accents[ord(ch)] applied to the non-empty pending cluster", "a combining mark's command is applied to `%s` under guards %s: it must be applied to the pending (non-empty) cluster of the preceding base character, with the mark in the accent table" % (at, gs))
-            elif idx.startswith("int(") and idx.endswith("[1],16)"):
-                X = idx[4:-7]
-                okarg = at == "chr(int(%s[0],16))" % X
-                okdec = defs.get(X, [None])[0] in ("unicodedata.decomposition(%s).split()" % loopvar,)
-                R.check(member and okarg and okdec, "C19.WRAP", U + "|precomposed", where(f, nd), "accents[second code point] applied to chr(first code point) of this character's decomposition", "a precomposed character is rewritten as command `%s` on `%s` (decomposition source %s, guards %s): expected accents[int(d[1],16)] applied to chr(int(d[0],16)) of this character's own canonical decomposition" % (ct, at, defs.get(X), gs))
+    try:
+        f, lp, res, outn, cln = _loop_leaves(ctx)
+    except Undecided as e:
+        R.undecided("C19.WRAP", U, where(P.func(U)), str(e))
+        return
+    D = "unicodedata.decomposition(ch).split()"
+    kinds = {"combining": 0, "precomposed": 0, "attach": 0, "plain": 0}
+    for facts, o2, c2 in res:
+        tag = " & ".join(sorted(("" if pol else "not ") + t for t, pol in facts))[:160]
+        acc = _accent_parts(c2)
+        cparts = _tparts(c2)
+        if acc is not None:
+            cmd, arg = acc
+            argk = [("lit", p[1]) if p[0] == "lit" else ("hole", key(p[1]), p[2]) for p in arg]
+            if cmd == "ACCENTS[ord(ch)]":
+                kinds["combining"] += 1
+                ok = argk == [("hole", cln, "%s")] and ("cmp(in, ord(ch), ACCENTS)", True) in facts and ("truth(%s)" % cln, True) in facts
+                R.check(ok, "C19.WRAP", U + "|combining mark: " + tag, where(f, lp), "accents[ord(ch)] applied to the non-empty pending cluster", "a combining mark is turned into \\%s{%s} under [%s]: its own command must be applied to the pending, non-empty cluster of the preceding base character" % (cmd, argk, tag))
+            elif cmd == "ACCENTS[int(%s[1], 16)]" % D:
+                kinds["precomposed"] += 1
+                want_arg = [("hole", "T[{int(%s[0], 16)|chr}]" % D, "%s")]
+                req = [("cmp(eq, len(%s), 2)" % D, True), ("truth(%s[0].startswith('<'))" % D, False), ("cmp(in, int(%s[1], 16), ACCENTS)" % D, True)]
+                ok = argk == want_arg and all(r in facts for r in req)
+                R.check(ok, "C19.WRAP", U + "|precomposed: " + tag, where(f, lp), "accents[second code point] applied to chr(first code point) of this character's canonical two-token decomposition", "a precomposed character is rewritten as \\%s{%s} under [%s]: expected accents[int(d[1],16)] applied to chr(int(d[0],16)) of its own decomposition d, only when d has exactly two tokens, no <tag>, and the mark is in the table" % (cmd, argk, tag))
             else:
-                R.bad("C19.WRAP", U + "|command index %s" % idx, where(f, nd), "the accent command is looked up by `%s`: neither this character's code nor the second code point of its decomposition" % idx)
-    R.check(n >= 2, "C19.WRAP.inventory", "accent templates: %d" % n, "", "", "expected a combining-mark and a precomposed template", nontrivial=False)
-    # only combining characters are appended to a pending cluster
-    for nd in ast.walk(f.node):
-        if isinstance(nd, ast.AugAssign) and isinstance(nd.op, ast.Add) and isinstance(nd.target, ast.Name):
-            gs = [ntext(g).replace(" ", "") for g in _guards_of(nd, f.node)]
-            loopvar = next((l.target.id for l in _loop(f) if isinstance(l, ast.For) and isinstance(l.target, ast.Name)), None)
-            if ntext(nd.value) == loopvar:
-                ok = "unicodedata.combining(%s)" % loopvar in gs and nd.target.id in gs
-                R.check(ok, "C19.WRAP", U + "|attach `%s`" % ntext(nd), where(f, nd), "only characters with a non-zero combining class join a non-empty cluster", "`%s` attaches the character to the pending cluster under guards %s: only combining characters may join a non-empty cluster (otherwise a later accent is applied to several base characters)" % (ntext(nd), gs))
+                R.bad("C19.WRAP", U + "|command " + cmd[:60], where(f, lp), "an accent command is looked up by `%s`: neither this character's code nor the second code point of its own decomposition" % cmd)
+        else:
+            holes = [p[1] for p in cparts if p[0] == "hole"]
+            if holes == [cln, "ch"]:
+                kinds["attach"] += 1
+                ok = ("truth(unicodedata.combining(ch))", True) in facts and ("truth(%s)" % cln, True) in facts
+                R.check(ok, "C19.WRAP", U + "|attach: " + tag, where(f, lp), "only characters with a non-zero combining class join a non-empty cluster", "the character is attached to the pending cluster under [%s]: only combining characters may join a non-empty cluster (otherwise a later accent is applied to several base characters)" % tag)
+            else:
+                kinds["plain"] += 1
+    R.check(kinds["combining"] >= 1 and kinds["precomposed"] >= 1, "C19.WRAP.inventory", "accent paths: %s" % kinds, where(f), "", "expected a combining-mark and a precomposed path through the loop body (found %s)" % kinds, nontrivial=False)
+    # the literal templates in the source are the accent form only
+    for g in [f] + [P.funcs[q] for q in sorted(ctx.cg.reachable([U])) if q != U and q in P.funcs and P.funcs[q].module.name == "tex"]:
+        for nd in walk_local(g.node):
+            if isinstance(nd, ast.BinOp) and isinstance(nd.op, ast.Mod) and isinstance(nd.left, ast.Constant) and isinstance(nd.left.value, str):
+                R.check(nd.left.value == "\\%s{%s}", "C19.WRAP", "%s|template %r" % (g.qual, nd.left.value), where(g, nd), "accent template \\<cmd>{<arg>}", "template %r is not the TeX accent form \\<cmd>{<arg>}" % nd.left.value, nontrivial=False)
 
 
 @rule("C19.TABLE")
